@@ -258,8 +258,6 @@ def resolve(cls, d, op, fl):
         return op, f
     k = fl(op[1])
     cop = (name, raw(k)) + tuple(op[2:])
-    if name == 'mte':
-        cop += (isinstance(k, bytes),)      # inherited method: no to_unicode, a bytes key is looked up as bytes
     if name == 'getitem':
         return cop, lambda: (d, d[k])
     if name == 'contains':
@@ -299,8 +297,6 @@ def token(cop):
         return name
     if name in ('get', 'pop'):
         return f'{name}:{enc(cop[1])}:{"" if cop[2] is None else cop[2]}'
-    if name == 'mte':
-        return f'{"mteb" if cop[3] else "mte"}:{enc(cop[1])}:{cop[2]}'
     return ':'.join([name, enc(cop[1])] + [str(x) for x in cop[2:]])
 
 
@@ -519,8 +515,7 @@ class Ref:
 def classify(cop, got, want):
     if cop[0] == 'pop' and cop[2] is None and want == ('raise', 'KeyError') and got == ('value', None):
         return 'pop-missing-default-none'
-    if cop[0] == 'mte' and (cop[1] != cop[1].upper() or cop[3]) and got == ('raise', 'KeyError') and want == ('value', None):
-        return 'inherited-method-not-folded'
+    # move_to_end was repaired in 991e646: a deviation there is a regression and is reported unclassified
     return None
 
 
